@@ -281,6 +281,8 @@ def run(ctx: Ctx):
     ctx.mc("MC_Elapsed", MC_ELAPSED.format(upd=6, maxdays=3), workers="auto", tag="upd6")
     ctx.mc("MC_Elapsed", MC_ELAPSED.format(upd=4 if q else 12, maxdays=2 if q else 4), workers="auto", tag="upd_b", timeout=1800)
     ctx.mc("MC_BigInt", MC_BIGINT, workers="auto", tag="bigint")
+    # normal-form carry/borrow/negate/from-units and truncating accessors for ALL integers with the real constant (Apalache)
+    ctx.apalache("APA_ElapsedImpl", "NormalFormLaws")
     total = 40_000 if q else 1_200_000
     nshard = NCPU
     per = total // nshard
